@@ -142,6 +142,7 @@ class Encoder:
         self.bits: typing.List[int] = []
         self.nan_regions: typing.List[typing.Tuple[int, int]] = []
         self.field_starts: typing.List[typing.Tuple[typing.Tuple[typing.Any, ...], int]] = []  # (path, start bit)
+        self.headers: typing.List[typing.Tuple[int, int]] = []  # (bit position, value) of every delimiter header written
         self.unaligned_wide = 0  # primitives of >= 8 bits that start at a bit offset that is not a multiple of 8
 
     def put(self, value: int, width: int) -> None:
@@ -222,8 +223,10 @@ class Encoder:
             inner = Encoder()
             inner.encode(spec[1], v, path)
             assert len(inner.bits) % 8 == 0
+            self.headers.append((len(self.bits), len(inner.bits) // 8))
             self.put(len(inner.bits) // 8, layout.DELIMITER_HEADER)
             base = len(self.bits)
+            self.headers.extend((s + base, n) for s, n in inner.headers)
             self.nan_regions.extend((s + base, w) for s, w in inner.nan_regions)
             self.field_starts.extend((p, s + base) for p, s in inner.field_starts)
             self.unaligned_wide += inner.unaligned_wide
